@@ -62,7 +62,9 @@ def sec5():
           'Process-killing defects reachable by a remote client or by calling `Close` (all repaired): D1, D5, D6 (panics on',
           'client-controlled input or close of a shared channel), D3, D4, D14, D15 (send on closed channel / close of closed',
           'channel during shutdown), D17, D19 (client library), D23 (silent frame corruption rather than a crash).',
-          'D18 and D30 hang the client (Close never returns), D31 leaves a caller without a usable reply.',
+          'D18, D30 and D35 hang the client (Close or an API call never returns), D31 leaves a caller without a usable reply,',
+          'D26 and D32 stall or hang a whole realm (one slow meta-API caller; Close with a meta call in flight), D33 and D34',
+          'leave goroutines behind or make Close wait for a client-chosen time.',
           'D29 was found by the finished C16 check on the tree that already carried the other repairs.']
     return '\n'.join(o)
 
@@ -135,8 +137,9 @@ def sec6():
         'testament buckets per scope and written back (C05, C18); last received id (C19); template realms keep their',
         'Authorizer (C10); identity order, match predicates and match functions shared with C01, C18, C20.',
         'Reading for these rounds also turned up four more genuine defects, all reproduced and repaired: D31 (sub-agent',
-        'remark while working on C02), D32–D34 (sub-agent remarks while working on C06; D32 is very likely the cause of the',
-        'occasional hang of the repository\'s own TestClientRace under load).',
+        'remark while working on C02), D32–D34 (sub-agent remarks while working on C06) and D35 (several sub-agents saw the',
+        'repository\'s own TestClientRace hang in Client.Register under load: an API call blocked in its send when the session',
+        'was killed at that moment). D32 and D35 explain hangs of the existing suite that are independent of any seeded change.',
         'Variants that could not be kept: three "kill_all keeps the wrong session" variants fail the existing suite when',
         'ported to the repaired tree; two C17 variants fail the suite; one C06 variant stopped being a violation after the',
         'D4 repair (the timers are now joined).']
